@@ -21,6 +21,13 @@ import base64
 
 MAX_LEN = 41984            # "1 byte..41K"
 SCR_LEN = 6912
+
+def gen_scr(rng, may_be_short=False):
+    """A loading screen file of 6912 bytes. Without --clear the screen travels inside the machine-code loader block, which
+    bin2tap pads with zeros up to 6912 bytes, so a shorter file (pixels only, or cut anywhere) is accepted there; with --clear
+    the documentation's "6912-byte SCR file" is taken literally."""
+    n = SCR_LEN if not may_be_short or rng.random() < 0.6 else rng.choice([6144, 6911, 6900, 6400, 2048, 1])
+    return gen_bytes(rng, n, rng.choice(('random', 'tagged', 'runs')))[0]
 RAM = 16384
 TOP = 65536
 LOADER48 = (23296, 23316)  # where the BASIC loader of a tape made without --clear puts its 20-byte machine-code loader ("23296" in line 10)
@@ -181,7 +188,7 @@ def _gen_48stack(rng, max_len):
         estack = stack
     scr = None
     if rng.random() < 0.3:
-        scr = gen_bytes(rng, SCR_LEN, rng.choice(('random', 'tagged', 'runs')))[0]
+        scr = gen_scr(rng, may_be_short=True)
     return {'machine': 48, 'bin': data, 'style': style, 'org': org, 'begin': begin, 'end': end, 'start': start, 'stack': stack,
             'clear': None, 'scr': scr, 'banks': None, 'o7ffd': None, 'loader': None,
             'eff_org': eorg, 'eff_begin': eb, 'eff_end': ee, 'eff_start': estart, 'eff_stack': estack}
@@ -234,7 +241,7 @@ def _gen_48clear(rng, max_len):
     stack = None
     if rng.random() < 0.1:
         stack = rng.randrange(MIN_STACK, TOP)          # documented as irrelevant with --clear ("leave the stack pointer alone")
-    scr = gen_bytes(rng, SCR_LEN, rng.choice(('random', 'tagged', 'runs')))[0] if has_scr else None
+    scr = gen_scr(rng) if has_scr else None
     return {'machine': 48, 'bin': data, 'style': style, 'org': org, 'begin': begin, 'end': end, 'start': start, 'stack': stack,
             'clear': clear, 'scr': scr, 'banks': None, 'o7ffd': None, 'loader': None, 'ok128': on128, 'under': under, 'ret_probe': ret_probe,
             'eff_org': eorg, 'eff_begin': eb, 'eff_end': ee, 'eff_start': estart, 'eff_stack': None}
@@ -316,7 +323,7 @@ def _gen_128(rng, max_len):
     estart = eb if start is None else start
     if eloader <= estart < eloader + L or PAGING128[0] <= estart < PAGING128[1]:
         return None                                    # PC passes here while the bank loader / the 128K paging routines run
-    scr = gen_bytes(rng, SCR_LEN, rng.choice(('random', 'tagged', 'runs')))[0] if has_scr else None
+    scr = gen_scr(rng) if has_scr else None
     style = rng.choice(('random', 'random', 'tagged', 'runs'))
     data = gen_bytes(rng, 0x20000, style)[0]
     return {'machine': 128, 'bin': data, 'style': style, 'org': None, 'begin': begin, 'end': end, 'start': start, 'stack': None,
